@@ -46,12 +46,63 @@ def contract(code, result, table):
     return None
 
 
+def quic_table(case):
+    """TLExport has a second resolver: QuicSession.set_tls_decryptors maps the suite of a QUIC handshake to (hash, AEAD class, key length); the AEAD objects it
+    builds use the library's 16-byte tag.  Same contract, all 65 536 code points: what it resolves must be what the IANA name denotes - incl. the tag length, so a
+    *_CCM_8 suite cannot be resolved by this path - everything else must be reported as unknown."""
+    from checks.c16 import make_session
+    try:
+        sess = make_session()
+        sess.set_tls_decryptors
+    except Exception as ex:       # constructor / method moved (refactoring): this observation point is gone
+        return {"v": "inconclusive", "cls": ["quic-table"], "nontrivial": False, "msg": f"QUIC suite resolver not observable: {ex!r}"}
+    bad, accepted, unobs = [], [], 0
+    for code in range(case["lo"], case["hi"]):
+        try:
+            sess.cipher = sess.hash_fun = sess.key_length = None
+            sess.can_decrypt = True
+            sess.keys, sess.decryptors = {}, {}
+        except Exception:
+            unobs += 1
+        try:
+            sess.set_tls_decryptors(bytes(32), code.to_bytes(2, "big"))
+        except Exception:
+            pass                    # no secrets were supplied: what matters is what the suite was resolved to before the keys were looked up
+        cipher, hfun, klen = getattr(sess, "cipher", None), getattr(sess, "hash_fun", None), getattr(sess, "key_length", None)
+        if cipher is None and hfun is None and klen is None:
+            continue                # reported as unknown
+        accepted.append(code)
+        reg = suites.REGISTRY.get(code)
+        if reg is None:
+            bad.append(f"QUIC resolver accepts code point {code:#06x}, which is not a registered IANA cipher suite")
+            continue
+        try:
+            e = _expect(suites.parse_name(reg))
+        except suites.NotDrivable:
+            bad.append(f"QUIC resolver accepts {code:#06x} ({reg}) although its name denotes algorithms TLExport cannot resolve")
+            continue
+        got = {"cipher": getattr(cipher, "__name__", repr(cipher)), "key_len": klen, "aead": 1, "hash": getattr(hfun, "__name__", repr(hfun)), "tag": 16}
+        if got != e:
+            bad.append(f"QUIC resolver: code point {code:#06x} ({reg}) resolved to {got} (AEAD objects of this path always use a 16-byte tag), name denotes {e}")
+    res = {"units": case["hi"] - case["lo"], "classes": [f"quic-{c:04X}" for c in accepted] + [f"quic-rejected-{case['lo']:04x}"], "cls": [case["id"]], "nontrivial": True,
+           "mon": {"QuicSession.set_tls_decryptors.contract": case["hi"] - case["lo"]}, "tags": [f"quic-accepted:{len(accepted)}"],
+           "sample": {"range": case["id"], "accepted": [f"{c:04X}={suites.REGISTRY.get(c)}" for c in accepted[:6]]}}
+    if bad:
+        res.update(v="violated", msg="; ".join(bad[:5]))
+    else:
+        res["v"] = "held"
+    return res
+
+
 def build(tier, seed):
     chunk = 4096
     cases = [{"id": f"codes-{lo:04x}-{lo + chunk - 1:04x}", "lo": lo, "hi": lo + chunk} for lo in range(0, 65536, chunk)]
+    cases += [{"id": f"quic-codes-{lo:04x}-{lo + chunk - 1:04x}", "lo": lo, "hi": lo + chunk, "quic": True} for lo in range(0, 65536, chunk)]
 
     def evalfn(case):
         logging.disable(logging.CRITICAL)
+        if case.get("quic"):
+            return quic_table(case)
         import tlexport.cipher_suite_parser as csp
         table = getattr(csp, "cipher_suites", None)
         accepted, bad, raised = [], [], 0
@@ -80,13 +131,14 @@ def build(tier, seed):
         return res
 
     def extra(results):
-        acc = sorted({c for r in results for c in (r.get("classes") or []) if not c.startswith("rejected")})
+        acc = sorted({c for r in results for c in (r.get("classes") or []) if not c.startswith("rejected") and not c.startswith("quic-")})
         gone = [f"{c:04X}" for c in suites.SUPPORTED if f"{c:04X}" not in acc]
         return {"accepted_code_points": len(acc), "pinned_supported": len(suites.SUPPORTED), "accepted_set_shrank_vs_pinned": gone,
-                "accepted_new_vs_pinned": [c for c in acc if int(c, 16) not in suites.SUPPORTED]}
+                "accepted_new_vs_pinned": [c for c in acc if int(c, 16) not in suites.SUPPORTED],
+                "quic_resolver_accepts": sorted({c[5:] for r in results for c in (r.get("classes") or []) if c.startswith("quic-") and not c.startswith("quic-rejected")})}
 
     return dict(cases=cases, evalfn=evalfn, level="exploration", exhaustive=True, min_nontrivial=16,
-                rule="all 65 536 two-byte code points, each passed to the real split_cipher_suite under the contract; a class is an "
+                rule="all 65 536 two-byte code points, each passed to the real split_cipher_suite and to the QUIC path's own resolver (QuicSession.set_tls_decryptors) under the contract; a class is an "
                      "accepted code point (checked against registry + independent name parser) or a rejected 4096-block; every case is non-trivial",
                 assumptions=["registry/iana_tls_cipher_suites.json is a faithful copy of the IANA registry (cross-checked at setup "
                              "against the scapy and dpkt copies)", "the harness's structural name parser"], extra=extra)
